@@ -67,7 +67,9 @@ func intArray4(a [4]int) eval.Value {
 func C08(c *core.Ctx) {
 	c.Explanation("C08: (R2) findUpDownCatchment (with rearrangeCatchment and balance) and findUpDownCatchmentPushDistance (with refactorPushCatchment) are interpreted on every bounded target stream with the pair classifier replaced by a table look-up, for each bin separately (which also cross-checks the four hand-copied bin blocks) and for mixed streams; every bin must be the prefix of its candidates ordered by distance, then fewer ambiguities, then file order, within the bin's distance limit, cut to the size balance() allots; (R3) balance() is interpreted exhaustively over requested/available sizes in 0..2 (quick) or 0..3 (thorough) against the specified allocation (min(requested, available) with --no-fill; otherwise even make-up until total or supply is exhausted); (R1) whichWay is interpreted on every pair of short sequences over {A,C,G,N} (converted by the interpreted getLines) against the specified bin and distance; (R4) checkArgs option normalisation over a grid of option values; the two writers on a symbolic result for column order and bin naming.")
 	checkSoftGapReaders(c, "R9", "pkg/updown")
-	c09Inputs(c) // the records the binning sees are the same for FASTA and CSV input
+	c09Inputs(c)                                                             // the records the binning sees are the same for FASTA and CSV input
+	checkArrivalOrderIndependence(c, "R10/reorder", "updown.reorderRecords") // "file order" is the order of the target file, whatever the order the converted records arrive in
+	checkMapRanges(c, "R10/map-order", "pkg/updown")
 	lineT := namedType(c, "pkg/updown", "updownLine")
 	if lineT == nil {
 		c.Und("R0/types", token.NoPos, "UNRESOLVED type updown.updownLine")
@@ -200,7 +202,7 @@ func c08Bins(c *core.Ctx, lineT types.Type) {
 	}
 	maxN := 3
 	if c.Tier == "thorough" {
-		maxN = 4
+		maxN = 5
 	}
 	run := func(ts []udTgt, size [4]int, nofill bool, dist [4]int, ignore []string) (*eval.StructVal, *eval.Evaluator, error) {
 		ev := newEval(c)
@@ -335,7 +337,7 @@ func c08Push(c *core.Ctx, lineT types.Type) {
 	}
 	maxN := 3
 	if c.Tier == "thorough" {
-		maxN = 4
+		maxN = 5
 	}
 	nEval := 0
 	stable := true
@@ -420,7 +422,7 @@ func c08Balance(c *core.Ctx) {
 	}
 	maxV := 2
 	if c.Tier == "thorough" {
-		maxV = 3
+		maxV = 4
 	}
 	ev := newEval(c)
 	var bad []string
@@ -487,7 +489,7 @@ func c08WhichWay(c *core.Ctx, lineT types.Type) {
 	}
 	L := 2
 	if c.Tier == "thorough" {
-		L = 3
+		L = 4
 	}
 	alpha := []byte("ACGN")
 	var seqs []string
